@@ -1,9 +1,161 @@
-(* C05 — property theorems only (placeholder while the proofs are being ported). *)
-From Coq Require Import List Arith Bool.
-From AV Require Import model.C05_model proofs.C05_proofs.
+(* C05 — keep-balance never trashes a needed or too-new replica: property theorems only.
+   Model: model/C05_model.v (`balance` = cleanupMounts; setupLookupTables; balanceBlock, with the
+   rendezvous rank and the rendezvousLess order of device ids as parameters).  Specification
+   vocabulary (physical devices, `Spec`, `hyp_b`): model/C05_run.v and proofs/C05_spec.v.
+   Suffixes: _refuted = the statement fails on the model of the current code (witness observed on the
+   real code: known_findings.txt F1, F10, F12, F8); _partial = proved under the stated hypotheses. *)
+From Coq Require Import List Arith Bool NArith.
+From AV Require Import model.C05_model model.C05_run proofs.C05_proofs proofs.C05_safety proofs.C05_repl
+  proofs.C05_phys proofs.C05_spec proofs.C05_witness.
 Import ListNotations.
 
-Theorem C05_emit_trash_old : forall minMtime norepl from s m t,
-  In (Trash m t) (emit minMtime norepl from s) -> t < minMtime /\ srepl s = Some t /\ swant s = false /\ m = mid (smnt s).
-Proof. exact emit_trash_old. Qed.
-Print Assumptions C05_emit_trash_old.
+(* -- clauses that hold for every layout, every replica set, every Desired ------------------------- *)
+
+(* a Trash names an observed replica (mount, mtime) that is older than MinMtime *)
+Theorem C05_trash_old_only : forall dflt rank devrank minMtime raw sro repl desired m t,
+  In (Trash m t) (fst (balance dflt rank devrank minMtime raw sro repl desired)) ->
+  t < minMtime /\ In (m, t) repl.
+Proof. exact trash_old_only. Qed.
+Print Assumptions C05_trash_old_only.
+
+(* ... on a mount that is reported writable, of a service that is not read-only *)
+Theorem C05_trash_writable_only : forall dflt rank devrank minMtime raw sro repl desired m t,
+  In (Trash m t) (fst (balance dflt rank devrank minMtime raw sro repl desired)) ->
+  exists r, In r raw /\ mid r = m /\ mro r = false /\ ~ In (msrv r) sro.
+Proof. exact trash_writable_only. Qed.
+Print Assumptions C05_trash_writable_only.
+
+(* a Pull targets a writable mount through which no replica is seen; some replica exists and the
+   source is the service of blk.Replicas[0] *)
+Theorem C05_pull_targets_ok : forall dflt rank devrank minMtime raw sro repl desired m f,
+  In (Pull m f) (fst (balance dflt rank devrank minMtime raw sro repl desired)) ->
+  (exists r, In r raw /\ mid r = m /\ mro r = false /\ ~ In (msrv r) sro) /\
+  (forall t, ~ In (m, t) repl) /\
+  exists m0 t0 rest, repl = (m0, t0) :: rest /\
+     f = match find (fun x => mid x =? m0) raw with Some x => msrv x | None => 0 end.
+Proof. exact pull_targets_ok. Qed.
+Print Assumptions C05_pull_targets_ok.
+
+(* when balanceBlock's own `underreplicated` flag is set, nothing at all is trashed *)
+Theorem C05_no_trash_when_flag_set : forall dflt rank devrank minMtime raw sro repl desired,
+  under_flag dflt rank devrank (setup raw sro) repl (classes_of dflt (setup raw sro)) desired = true ->
+  trashes (fst (balance dflt rank devrank minMtime raw sro repl desired)) = [].
+Proof. exact no_trash_when_flag. Qed.
+Print Assumptions C05_no_trash_when_flag_set.
+
+(* the flag is set whenever the replicas seen through mounts of a class that balanceBlock walks
+   (counted per mount) fall short of the desired replication *)
+Theorem C05_flag_set_when_short : forall dflt rank devrank mounts repl classes desired k,
+  In k classes -> 0 < lookup desired k ->
+  have_m dflt k mounts repl < lookup desired k ->
+  under_flag dflt rank devrank mounts repl classes desired = true.
+Proof. exact flag_set_when_short. Qed.
+Print Assumptions C05_flag_set_when_short.
+
+(* a referenced block without any replica is reported lost if some mount is writable *)
+Theorem C05_lost_reported : forall dflt rank devrank minMtime raw sro desired k,
+  In k (classes_of dflt (setup raw sro)) -> 0 < lookup desired k ->
+  (exists x, In x (setup raw sro) /\ mro x = false) ->
+  snd (balance dflt rank devrank minMtime raw sro [] desired) = true.
+Proof. intros. eapply lost_reported; eauto. Qed.
+Print Assumptions C05_lost_reported.
+
+(* ... but not when everything is read-only (F8) *)
+Theorem C05_lost_reported_refuted : exists dflt rank devrank minMtime raw sro desired k,
+  In k (classes_of dflt (setup raw sro)) /\ 0 < lookup desired k /\
+  snd (balance dflt rank devrank minMtime raw sro [] desired) = false.
+Proof.
+  exists 1, (fun s => nth s [0; 1] 0), (fun d => nth d [3; 2; 1; 0] 0), 100,
+         [mkm 1 0 1 true 1 []; mkm 2 1 2 true 1 [2]; mkm 3 1 3 true 1 [2]], [], [(1, 1); (2, 1)], 1.
+  vm_compute. auto.
+Qed.
+Print Assumptions C05_lost_reported_refuted.
+
+(* -- the two replication-safety clauses, physical-device reading --------------------------------- *)
+
+(* "nothing is trashed while a desired class is under-replicated": fails when a device is mounted on
+   two servers (F1: counted twice) and when the desired class is offered by no mount (F12) *)
+Theorem C05_no_trash_when_underreplicated_refuted :
+  (exists c k, 0 < lookup (c_desired c) k /\ In k (classes_of (c_dflt c) (setup (c_raw c) (c_sro c))) /\
+     phys_repl (c_dflt c) k (setup (c_raw c) (c_sro c)) (held (setup (c_raw c) (c_sro c)) (c_repl c)) < lookup (c_desired c) k /\
+     trashes (fst (m_out c)) <> []) /\
+  (exists c k, 0 < lookup (c_desired c) k /\ unshared (setup (c_raw c) (c_sro c)) /\
+     phys_repl (c_dflt c) k (setup (c_raw c) (c_sro c)) (held (setup (c_raw c) (c_sro c)) (c_repl c)) < lookup (c_desired c) k /\
+     trashes (fst (m_out c)) <> []).
+Proof.
+  split.
+  - (* F1: empty best mount with Replication 2, one device seen through mounts 2 and 3, a replica on a
+       "special" mount; default is physically at 1 < 2 and the special replica is trashed *)
+    exists (mkcase 1 [mkm 1 0 1 false 2 []; mkm 2 1 2 false 1 []; mkm 3 2 2 false 1 []; mkm 4 3 3 false 1 [2]] []
+                   [(2, 40); (3, 40); (4, 60)] [(1, 2)] [0; 1; 2; 3] [0; 1; 2; 3]), 1.
+    vm_compute. split; [auto|]. split; [auto|]. split; [auto|discriminate].
+  - exists w_f12, 2. split; [vm_compute; auto|]. split.
+    + split; apply nodupb_NoDup; vm_compute; reflexivity.
+    + vm_compute. split; [auto|discriminate].
+Qed.
+Print Assumptions C05_no_trash_when_underreplicated_refuted.
+
+Theorem C05_no_trash_when_underreplicated_partial : forall dflt rank devrank minMtime raw sro repl desired k,
+  (* every device is mounted once; the class is offered by some mount (or is "default") *)
+  unshared (setup raw sro) -> In k (classes_of dflt (setup raw sro)) ->
+  0 < lookup desired k ->
+  phys_repl dflt k (setup raw sro) (held (setup raw sro) repl) < lookup desired k ->
+  trashes (fst (balance dflt rank devrank minMtime raw sro repl desired)) = [].
+Proof. exact under_partial. Qed.
+Print Assumptions C05_no_trash_when_underreplicated_partial.
+
+(* "carrying out every trash leaves each class with min(desired, before) replication over distinct
+   devices": fails with a shared device (F1) and, without any shared device, when a server has two
+   mounts of the class (F10) *)
+Theorem C05_trash_preserves_replication_refuted :
+  (exists c k, 0 < lookup (c_desired c) k /\
+     phys_repl (c_dflt c) k (setup (c_raw c) (c_sro c)) (after (setup (c_raw c) (c_sro c)) (c_repl c) (trashes (fst (m_out c)))) <
+     Nat.min (lookup (c_desired c) k) (phys_repl (c_dflt c) k (setup (c_raw c) (c_sro c)) (held (setup (c_raw c) (c_sro c)) (c_repl c)))) /\
+  (exists c k, 0 < lookup (c_desired c) k /\ unshared (setup (c_raw c) (c_sro c)) /\
+     In k (classes_of (c_dflt c) (setup (c_raw c) (c_sro c))) /\
+     phys_repl (c_dflt c) k (setup (c_raw c) (c_sro c)) (after (setup (c_raw c) (c_sro c)) (c_repl c) (trashes (fst (m_out c)))) <
+     Nat.min (lookup (c_desired c) k) (phys_repl (c_dflt c) k (setup (c_raw c) (c_sro c)) (held (setup (c_raw c) (c_sro c)) (c_repl c)))).
+Proof.
+  split.
+  - exists w_f1, 1. vm_compute. auto.
+  - exists w_f10, 0. split; [vm_compute; auto|]. split; [split; apply nodupb_NoDup; vm_compute; reflexivity|].
+    split; [vm_compute; auto|vm_compute; auto].
+Qed.
+Print Assumptions C05_trash_preserves_replication_refuted.
+
+Theorem C05_trash_preserves_replication_partial : forall dflt rank devrank minMtime raw sro repl desired k,
+  (* every device is mounted once; no server has two mounts of class k; k is offered by some mount *)
+  unshared (setup raw sro) -> NoDup (map msrv (filter (inclass dflt k) (setup raw sro))) ->
+  In k (classes_of dflt (setup raw sro)) -> 0 < lookup desired k ->
+  Nat.min (lookup desired k) (phys_repl dflt k (setup raw sro) (held (setup raw sro) repl)) <=
+  phys_repl dflt k (setup raw sro)
+            (after (setup raw sro) repl (trashes (fst (balance dflt rank devrank minMtime raw sro repl desired)))).
+Proof. exact pres_partial. Qed.
+Print Assumptions C05_trash_preserves_replication_partial.
+
+(* -- the evaluator used by the harness ---------------------------------------------------------- *)
+
+(* the boolean that judges the implementation's output reflects the Prop-level specification *)
+Theorem C05_spec_b_reflects : forall c tr pl lost, spec_core c tr pl lost = true <-> Spec c tr pl lost.
+Proof. exact spec_core_reflects. Qed.
+Print Assumptions C05_spec_b_reflects.
+
+Theorem C05_spec_bits_zero_iff : forall c tr pl lost, spec_bits c tr pl lost = 0%N <-> spec_core c tr pl lost = true.
+Proof. exact spec_bits_zero. Qed.
+Print Assumptions C05_spec_bits_zero_iff.
+
+(* under hyp_b (devices mounted once, Desired well-formed, every desired class offered on pairwise
+   different servers, something writable) the model's output meets the whole specification; the
+   evaluator never accepts a known-finding bit on such a case *)
+Theorem C05_model_meets_spec_partial : forall c, hyp_b c = true ->
+  let '(chs, lost) := m_out c in Spec c (trashes chs) (pulls chs) lost.
+Proof. exact model_meets_spec_partial. Qed.
+Print Assumptions C05_model_meets_spec_partial.
+
+(* the hypotheses are satisfiable, with trash / pull / lost outcomes *)
+Theorem C05_hypotheses_satisfiable :
+  hyp_b ex_ok1 = true /\ trashes (fst (m_out ex_ok1)) = [(3, 12)] /\
+  hyp_b ex_ok2 = true /\ pulls (fst (m_out ex_ok2)) = [(1, 1)] /\ trashes (fst (m_out ex_ok2)) = [] /\
+  hyp_b ex_ok3 = true /\ snd (m_out ex_ok3) = true.
+Proof. exact ex_ok_facts. Qed.
+Print Assumptions C05_hypotheses_satisfiable.
